@@ -74,6 +74,9 @@ type ptraceObs struct {
 	Spawned [][][]string `json:"spawned"`
 	Final   int          `json:"final"` // index into Finals
 	Stuck   bool         `json:"stuck,omitempty"`
+	// Unordered: a released successful attempt was not seen to be received within a second; the delivery
+	// order of this run is not known and the run is not used
+	Unordered bool `json:"unordered,omitempty"`
 
 	lastEnabled []string
 }
@@ -150,13 +153,16 @@ func (c *pcfg) outcomeOf(a *attempt) guidedremediation.VerifC16Outcome {
 }
 
 type pgate struct {
-	ids   []string // copy taken when PatchFunc was called
-	after []string // the caller's slice re-read after the gate opened
-	ch    chan struct{}
+	seq       int
+	delivered bool     // ComputePatches' receiving loop has taken this attempt's (successful) result
+	ids       []string // copy taken when PatchFunc was called
+	after     []string // the caller's slice re-read after the gate opened
+	ch        chan struct{}
 }
 
 type prun struct {
 	mu       sync.Mutex
+	nseq     int
 	released []*pgate
 	blocked  []*pgate
 	events   int
@@ -189,10 +195,14 @@ func (r *prun) settle(quiet time.Duration) {
 
 func startCompute(c *pcfg) *prun {
 	r := &prun{done: make(chan struct{})}
-	fn := func(ids []string) guidedremediation.VerifC16Outcome {
+	gates := map[string]*pgate{}
+	fn := func(ids []string) (guidedremediation.VerifC16Outcome, []string) {
 		mine := append([]string(nil), ids...)
 		g := &pgate{ids: mine, ch: make(chan struct{})}
 		r.mu.Lock()
+		g.seq = r.nseq
+		r.nseq++
+		gates[fmt.Sprint(g.seq)] = g
 		r.blocked = append(r.blocked, g)
 		r.events++
 		r.mu.Unlock()
@@ -202,10 +212,18 @@ func startCompute(c *pcfg) *prun {
 		r.mu.Lock()
 		g.after = after
 		r.mu.Unlock()
-		return c.outcomeOf(c.lookup(after))
+		return c.outcomeOf(c.lookup(after)), []string{fmt.Sprint(g.seq)}
+	}
+	delivered := func(tag []string) {
+		r.mu.Lock()
+		if g := gates[tag[0]]; g != nil {
+			g.delivered = true
+		}
+		r.events++
+		r.mu.Unlock()
 	}
 	go func() {
-		r.res, r.err = guidedremediation.VerifC16ComputePatches(resolve.NPM, baseReqs(), c.Base, fn, c.Group)
+		r.res, r.err = guidedremediation.VerifC16ComputePatchesObserved(resolve.NPM, baseReqs(), c.Base, fn, c.Group, delivered)
 		close(r.done)
 	}()
 	return r
@@ -349,7 +367,31 @@ func runComputeSchedule(c *pcfg, quiet time.Duration, choose func(depth int, ena
 		tr.Order = append(tr.Order, en[i].ids)
 		tr.lastEnabled = append(append([]string(nil), keys[:i]...), keys[i+1:]...)
 		expect += c.expectedSpawn(en[i].ids) - 1
-		r.release(en[i])
+		g := en[i]
+		r.release(g)
+		// The order of release is the order of delivery only if the result has been received before the next
+		// attempt is let go: ComputePatches' receiving loop reports the receipt of every successful result
+		// (failed attempts leave no trace in the result list, their position does not matter).
+		if a := c.lookup(g.ids); a != nil && a.Err == 0 {
+			dl := time.Now().Add(time.Second)
+			for {
+				r.mu.Lock()
+				ok := g.delivered
+				r.mu.Unlock()
+				if ok || time.Now().After(dl) {
+					if !ok {
+						tr.Unordered = true
+					}
+					break
+				}
+				select {
+				case <-r.done:
+					dl = time.Now()
+				default:
+				}
+				runtime.Gosched()
+			}
+		}
 		depth++
 	}
 }
@@ -405,7 +447,7 @@ func exploreCompute(c *pcfg, quiet time.Duration, limit int) *pcase {
 			}
 			return stack[depth].idx
 		})
-		if ok && !diverged {
+		if ok && !diverged && !tr.Unordered {
 			// the last delivery's spawned set (nothing may be pending at the end)
 			for len(tr.Spawned) < len(tr.Order) {
 				tr.Spawned = append(tr.Spawned, nil)
